@@ -4,7 +4,8 @@ The code under test runs against a REAL scratch directory.  Inside `Interpose(ro
 touches a path under `root` is counted as one effect and logged:
   open(path, 'w'|'a'|'x'...)   1 effect when the file is created/truncated, 1 effect when its buffered content reaches
                                the disk (at close); in between the file is empty / unchanged
-  os.replace, os.rename, os.remove, os.unlink, os.mkdir, os.makedirs, os.rmdir, shutil.move, shutil.copy*, shutil.rmtree
+  os.replace, os.rename, os.remove, os.unlink, os.mkdir, os.makedirs, os.rmdir, shutil.move, shutil.copy* (one effect per file),
+  shutil.rmtree (one effect per file and directory removed)
 At effect number `crash_at` a Crash (BaseException: tally's `except Exception` cannot swallow it) is raised BEFORE the
 effect happens - except for a flush, where `partial` selects what reached the disk (0 nothing, 1 the first half, 2 all of it).
 At effect number `fault_at` an OSError is raised instead and nothing happens.
@@ -27,12 +28,16 @@ class _WFile:
         self.closed = False
         ip.open_files.append(self)
         ip.effect('create' if 'a' not in mode else 'open-append', path)
+        self.binary = 'b' in mode
         if 'a' not in mode:
-            with ip.real_open(path, 'w', **kw):
+            with ip.real_open(path, 'wb' if self.binary else 'w', **kw):
                 pass
         elif not os.path.exists(path):
-            with ip.real_open(path, 'a', **kw):
+            with ip.real_open(path, 'ab' if self.binary else 'a', **kw):
                 pass
+
+    def fileno(self):
+        raise OSError('buffered by the interposition layer')
 
     def write(self, s):
         self.buf.append(s)
@@ -49,17 +54,18 @@ class _WFile:
         if self.closed:
             return
         self.closed = True
-        data = ''.join(self.buf)
+        data = (b'' if self.binary else '').join(self.buf)
         if not data:
             return
+        amode = 'ab' if self.binary else 'a'
         partial = self.ip.effect('flush', self.path, flush=True)
         if partial is not None:
-            part = {0: '', 1: data[:len(data) // 2], 2: data}[partial]
+            part = {0: data[:0], 1: data[:len(data) // 2], 2: data}[partial]
             if part:
-                with self.ip.real_open(self.path, 'a', **self.kw) as f:
+                with self.ip.real_open(self.path, amode, **self.kw) as f:
                     f.write(part)
             raise Crash('crash during flush of ' + self.path)
-        with self.ip.real_open(self.path, 'a', **self.kw) as f:
+        with self.ip.real_open(self.path, amode, **self.kw) as f:
             f.write(data)
 
     def __enter__(self):
@@ -103,9 +109,7 @@ class Interpose:
 
     def _open(self, file, mode='r', *a, **kw):
         if isinstance(file, (str, bytes, os.PathLike)) and any(c in mode for c in 'wax+') and self.inside(file):
-            if 'b' in mode:
-                raise NotImplementedError('binary writes are not modelled')
-            kw2 = {k: v for k, v in kw.items() if k in ('encoding', 'errors', 'newline')}
+            kw2 = {} if 'b' in mode else {k: v for k, v in kw.items() if k in ('encoding', 'errors', 'newline')}
             return _WFile(self, os.fspath(file), mode, kw2)
         return self.real_open(file, mode, *a, **kw)
 
@@ -131,6 +135,13 @@ class Interpose:
                 self.effect(kind, dst if self.inside(dst) else src)
             if kind in ('replace', 'rename'):
                 self._follow(src, dst)
+            if kind == 'copy':
+                saved = (builtins.open, io.open)           # one effect for the whole copy
+                builtins.open, io.open = self._real['open'], self._real['io.open']
+                try:
+                    return real(src, dst, *a, **kw)
+                finally:
+                    builtins.open, io.open = saved
             return real(src, dst, *a, **kw)
         return f
 
@@ -174,7 +185,23 @@ class Interpose:
         shutil.copy = self._wrap2(self._real['shutil.copy'], 'copy')
         shutil.copy2 = self._wrap2(self._real['shutil.copy2'], 'copy')
         shutil.copyfile = self._wrap2(self._real['shutil.copyfile'], 'copy')
-        shutil.rmtree = self._wrap1(self._real['shutil.rmtree'], 'rmtree')
+        real_rmtree = self._real['shutil.rmtree']
+
+        def rmtree(path, ignore_errors=False, onerror=None, **kw):
+            # removing a tree is not atomic: one effect per file and per directory, bottom-up
+            if not self.inside(path):
+                return real_rmtree(path, ignore_errors, onerror, **kw)
+            try:
+                for root_, dirs, files in os.walk(path, topdown=False):
+                    for fn in files:
+                        os.unlink(os.path.join(root_, fn))
+                    for dn in dirs:
+                        os.rmdir(os.path.join(root_, dn))
+                os.rmdir(path)
+            except OSError:
+                if not ignore_errors:
+                    raise
+        shutil.rmtree = rmtree
         return self
 
     def __exit__(self, *a):
